@@ -878,6 +878,8 @@ class Constraints:
                     f" you can override this class and custom it"
                 )
             validators.append((key, val, func))
+        # transforming (lax) constraints first: the strict ones then judge the value that is actually returned
+        validators.sort(key=lambda v: 0 if v[0] in constraint_mode else 1)
         return validators
 
     @classmethod
